@@ -6,6 +6,7 @@ import (
 	"fmt"
 	"io"
 	"net"
+	"os"
 	"strconv"
 	"strings"
 	"sync"
@@ -184,49 +185,107 @@ func e2ePush(h *RecvHistory, s e2eSender, g *e2eCollector) error {
 // scripted raw server (for the library Client)
 // ---------------------------------------------------------------------------------------------
 
+// e2eScript: the scripted raw server.  mode says how it treats the client's SETUP:
+//   "plain"          – whatever the client asks for (UDP unicast, TCP, multicast) is granted
+//   "auto-461"       – a UDP SETUP is refused with 461 Unsupported Transport (the client on automatic
+//                      transport selection then starts again with TCP)
+//   "auto-tcpanswer" – a UDP SETUP is answered with a TCP Transport header (same consequence)
 type e2eScript struct {
 	ln       net.Listener
-	tcp      bool
+	mode     string
+	ip       net.IP // address the server lives on (127.0.0.1, or the multicast-capable interface's)
+	group    net.IP // multicast group handed out, mport its port pair
+	mport    int
+	tcp      bool // negotiated: interleaved
+	mcast    bool // negotiated: multicast
 	rtp, rtc net.PacketConn
 	mu       sync.Mutex
 	wmu      sync.Mutex
-	conn     net.Conn
+	conns    []net.Conn
+	conn     net.Conn // the connection PLAY arrived on
 	cliPort  int
 	channel  byte
 	wg       sync.WaitGroup
 }
 
-func startE2EScript(tcp bool) (*e2eScript, error) {
-	ln, err := net.Listen("tcp", "127.0.0.1:0")
+var e2eGroupCounter int
+
+// e2eMulticastIP: IPv4 address of an interface that is up and multicast-capable (nil: none).
+func e2eMulticastIP() net.IP {
+	ifs, err := net.Interfaces()
 	if err != nil {
-		return nil, err
+		return nil
 	}
-	s := &e2eScript{ln: ln, tcp: tcp}
-	if !tcp {
+	for _, i := range ifs {
+		if i.Flags&net.FlagUp == 0 || i.Flags&net.FlagMulticast == 0 || i.Flags&net.FlagLoopback != 0 {
+			continue
+		}
+		addrs, _ := i.Addrs()
+		for _, a := range addrs {
+			if n, ok := a.(*net.IPNet); ok && n.IP.To4() != nil {
+				return n.IP.To4()
+			}
+		}
+	}
+	return nil
+}
+
+func startE2EScript(mode string, mcast bool) (*e2eScript, error) {
+	s := &e2eScript{mode: mode, ip: net.IPv4(127, 0, 0, 1)}
+	var err error
+	if mcast {
+		if s.ip = e2eMulticastIP(); s.ip == nil {
+			return nil, errNoMulticast
+		}
+		if s.mport, err = freeUDPPairE2E(); err != nil {
+			return nil, err
+		}
+		e2eGroupCounter++
+		s.group = net.IPv4(239, 77, byte(1+os.Getpid()%250), byte(1+e2eGroupCounter%250))
+		// the client accepts multicast datagrams only from the server's address AND from the port pair
+		if s.rtp, err = net.ListenPacket("udp", fmt.Sprintf("%s:%d", s.ip, s.mport)); err != nil {
+			return nil, err
+		}
+		if s.rtc, err = net.ListenPacket("udp", fmt.Sprintf("%s:%d", s.ip, s.mport+1)); err != nil {
+			s.rtp.Close()
+			return nil, err
+		}
+	} else {
 		if s.rtp, err = net.ListenPacket("udp", "127.0.0.1:0"); err != nil {
-			ln.Close()
 			return nil, err
 		}
 		if s.rtc, err = net.ListenPacket("udp", "127.0.0.1:0"); err != nil {
 			s.rtp.Close()
-			ln.Close()
 			return nil, err
 		}
+	}
+	if s.ln, err = net.Listen("tcp", s.ip.String()+":0"); err != nil {
+		s.rtp.Close()
+		s.rtc.Close()
+		return nil, err
 	}
 	s.wg.Add(1)
 	go func() {
 		defer s.wg.Done()
-		c, err := ln.Accept()
-		if err != nil {
-			return
+		for { // a client that switches transport starts again on a new connection
+			c, err := s.ln.Accept()
+			if err != nil {
+				return
+			}
+			s.mu.Lock()
+			s.conns = append(s.conns, c)
+			s.mu.Unlock()
+			s.wg.Add(1)
+			go func() {
+				defer s.wg.Done()
+				s.serve(c)
+			}()
 		}
-		s.mu.Lock()
-		s.conn = c
-		s.mu.Unlock()
-		s.serve(c)
 	}()
 	return s, nil
 }
+
+var errNoMulticast = fmt.Errorf("no multicast-capable interface")
 
 func readRTSPRequest(br *bufio.Reader) (method, url string, hd map[string]string, body []byte, err error) {
 	for {
@@ -297,9 +356,15 @@ func (s *e2eScript) serve(c net.Conn) {
 			fmt.Fprintf(&res, "Content-Base: %s/\r\nContent-Type: application/sdp\r\n", url)
 			body = []byte(e2eSDP)
 		case "SETUP":
-			if s.tcp {
+			tr := hd["transport"]
+			wantsTCP := strings.Contains(tr, "/TCP")
+			switch {
+			case !wantsTCP && s.mode == "auto-461":
+				res.Reset()
+				fmt.Fprintf(&res, "RTSP/1.0 461 Unsupported Transport\r\nCSeq: %s\r\n", hd["cseq"])
+			case wantsTCP || s.mode == "auto-tcpanswer":
 				il := "0-1"
-				for _, p := range strings.Split(hd["transport"], ";") {
+				for _, p := range strings.Split(tr, ";") {
 					if strings.HasPrefix(p, "interleaved=") {
 						il = strings.TrimPrefix(p, "interleaved=")
 					}
@@ -307,11 +372,22 @@ func (s *e2eScript) serve(c net.Conn) {
 				ch, _ := strconv.Atoi(strings.Split(il, "-")[0])
 				s.mu.Lock()
 				s.channel = byte(ch)
+				s.tcp = wantsTCP
 				s.mu.Unlock()
 				fmt.Fprintf(&res, "Transport: RTP/AVP/TCP;unicast;interleaved=%s\r\nSession: 12345678\r\n", il)
-			} else {
+			case strings.Contains(tr, "multicast"):
+				if s.group == nil {
+					res.Reset()
+					fmt.Fprintf(&res, "RTSP/1.0 461 Unsupported Transport\r\nCSeq: %s\r\n", hd["cseq"])
+					break
+				}
+				s.mu.Lock()
+				s.mcast = true
+				s.mu.Unlock()
+				fmt.Fprintf(&res, "Transport: RTP/AVP;multicast;destination=%s;port=%d-%d;ttl=1\r\nSession: 12345678\r\n", s.group, s.mport, s.mport+1)
+			default:
 				cport := ""
-				for _, p := range strings.Split(hd["transport"], ";") {
+				for _, p := range strings.Split(tr, ";") {
 					if strings.HasPrefix(p, "client_port=") {
 						cport = strings.TrimPrefix(p, "client_port=")
 					}
@@ -323,6 +399,11 @@ func (s *e2eScript) serve(c net.Conn) {
 				fmt.Fprintf(&res, "Transport: RTP/AVP;unicast;client_port=%s;server_port=%d-%d\r\nSession: 12345678\r\n", cport,
 					s.rtp.LocalAddr().(*net.UDPAddr).Port, s.rtc.LocalAddr().(*net.UDPAddr).Port)
 			}
+		case "PLAY":
+			s.mu.Lock()
+			s.conn = c
+			s.mu.Unlock()
+			res.WriteString("Session: 12345678\r\n")
 		default:
 			res.WriteString("Session: 12345678\r\n")
 		}
@@ -338,15 +419,34 @@ func (s *e2eScript) serve(c net.Conn) {
 	}
 }
 
+func (s *e2eScript) negotiated() string {
+	s.mu.Lock()
+	defer s.mu.Unlock()
+	switch {
+	case s.tcp:
+		return "tcp"
+	case s.mcast:
+		return "multicast"
+	}
+	return "udp"
+}
+
 func (s *e2eScript) send(b []byte) error {
 	s.mu.Lock()
-	c, cp, ch := s.conn, s.cliPort, s.channel
+	c, cp, ch, tcp, mcast := s.conn, s.cliPort, s.channel, s.tcp, s.mcast
 	s.mu.Unlock()
-	if s.tcp {
+	switch {
+	case tcp:
+		if c == nil {
+			return fmt.Errorf("no connection has asked for PLAY")
+		}
 		s.wmu.Lock()
 		defer s.wmu.Unlock()
 		c.SetWriteDeadline(time.Now().Add(3 * time.Second))
 		_, err := c.Write(e2eFrame(ch, b))
+		return err
+	case mcast:
+		_, err := s.rtp.WriteTo(b, &net.UDPAddr{IP: s.group, Port: s.mport})
 		return err
 	}
 	_, err := s.rtp.WriteTo(b, &net.UDPAddr{IP: net.IPv4(127, 0, 0, 1), Port: cp})
@@ -356,34 +456,56 @@ func (s *e2eScript) send(b []byte) error {
 func (s *e2eScript) close() {
 	s.ln.Close()
 	s.mu.Lock()
-	if s.conn != nil {
-		s.conn.Close()
+	for _, c := range s.conns {
+		c.Close()
 	}
 	s.mu.Unlock()
-	if s.rtp != nil {
-		s.rtp.Close()
-		s.rtc.Close()
-	}
+	s.rtp.Close()
+	s.rtc.Close()
 	s.wg.Wait()
 }
 
+// e2eClientPath describes how the transport of a client path is chosen and what must come out.
+type e2eClientPath struct {
+	proto      *gortsplib.Protocol // Client.Protocol (nil: automatic selection)
+	mode       string              // behaviour of the scripted server
+	mcast      bool
+	negotiated string // what the session must end up with
+}
+
+func protoPtr(p gortsplib.Protocol) *gortsplib.Protocol { return &p }
+
+var e2eClientPaths = map[string]e2eClientPath{
+	"client-udp":            {protoPtr(gortsplib.ProtocolUDP), "plain", false, "udp"},
+	"client-tcp":            {protoPtr(gortsplib.ProtocolTCP), "plain", false, "tcp"},
+	"client-auto-udp":       {nil, "plain", false, "udp"},             // automatic selection, the server grants UDP
+	"client-auto-461":       {nil, "auto-461", false, "tcp"},          // automatic selection, UDP refused with 461
+	"client-auto-tcpanswer": {nil, "auto-tcpanswer", false, "tcp"},    // automatic selection, UDP answered with TCP
+	"client-multicast":      {protoPtr(gortsplib.ProtocolUDPMulticast), "plain", true, "multicast"},
+}
+
+// e2eUnreliable: the receiver mode the NEGOTIATED transport of a path demands.
+func e2eUnreliable(path string) bool {
+	if cp, ok := e2eClientPaths[path]; ok {
+		return cp.negotiated != "tcp"
+	}
+	return path == "server-udp"
+}
+
 // e2eClientOnce: one history through a library Client.
-func e2eClientOnce(h *RecvHistory, tcp bool) (*e2eCollector, e2eStats, error) {
+func e2eClientOnce(h *RecvHistory) (*e2eCollector, e2eStats, error) {
 	g := newCollector()
-	s, err := startE2EScript(tcp)
+	cp := e2eClientPaths[h.E2E]
+	s, err := startE2EScript(cp.mode, cp.mcast)
 	if err != nil {
 		return g, e2eStats{}, err
 	}
 	defer s.close()
-	proto := gortsplib.ProtocolUDP
-	if tcp {
-		proto = gortsplib.ProtocolTCP
-	}
 	addr := s.ln.Addr().String()
 	c := &gortsplib.Client{
 		Scheme:        "rtsp",
 		Host:          addr,
-		Protocol:      &proto,
+		Protocol:      cp.proto,
 		ReadTimeout:   5 * time.Second,
 		WriteTimeout:  5 * time.Second,
 		OnPacketsLost: g.onLost,
@@ -404,6 +526,9 @@ func e2eClientOnce(h *RecvHistory, tcp bool) (*e2eCollector, e2eStats, error) {
 	c.OnPacketRTPAny(func(_ *description.Media, _ format.Format, p *rtp.Packet) { g.onPacket(p) })
 	if _, err = c.Play(nil); err != nil {
 		return g, e2eStats{}, err
+	}
+	if got := s.negotiated(); got != cp.negotiated {
+		return g, e2eStats{}, fmt.Errorf("negotiated transport %s, the path expects %s", got, cp.negotiated)
 	}
 	if err = e2ePush(h, s, g); err != nil {
 		return g, e2eStats{}, err
@@ -684,10 +809,6 @@ func (e *e2eEnv) close() {
 
 func (e *e2eEnv) once(h *RecvHistory) (*e2eCollector, e2eStats, error) {
 	switch h.E2E {
-	case "client-udp":
-		return e2eClientOnce(h, false)
-	case "client-tcp":
-		return e2eClientOnce(h, true)
 	case "server-udp", "server-tcp":
 		if e.srv == nil {
 			s, err := startE2EServer()
@@ -697,6 +818,9 @@ func (e *e2eEnv) once(h *RecvHistory) (*e2eCollector, e2eStats, error) {
 			e.srv = s
 		}
 		return e2eServerOnce(e.srv, h, h.E2E == "server-tcp")
+	}
+	if _, ok := e2eClientPaths[h.E2E]; ok {
+		return e2eClientOnce(h)
 	}
 	return newCollector(), e2eStats{}, fmt.Errorf("unknown e2e path %q", h.E2E)
 }
@@ -724,7 +848,7 @@ func e2eRun(c *corr.Ctx, env *e2eEnv, h *RecvHistory, name string) {
 		c.Violate(corr.Violation{Property: "C14", Clause: clause, Key: key, Where: "client_format.go / server_session_format.go (" + h.E2E + ")", Input: h, Detail: detail})
 	}
 	exp := recvUnit(h)
-	udp := strings.HasSuffix(h.E2E, "-udp")
+	udp := e2eUnreliable(h.E2E) // datagram transport
 	attempts := 1
 	if udp {
 		attempts = 3 // a datagram dropped by the kernel is not a finding: a delivery mismatch must repeat
@@ -799,7 +923,11 @@ func equalU16(a, b []uint16) bool {
 	return true
 }
 
-var e2ePaths = []string{"client-udp", "server-udp", "client-tcp", "server-tcp"}
+// every way a transport can come about: client {explicit UDP, explicit TCP, automatic → UDP granted,
+// automatic → UDP refused (461) → TCP, automatic → UDP answered with TCP → TCP, explicit multicast},
+// server record {UDP, TCP}.  The receiver must run in the mode of the NEGOTIATED transport.
+var e2ePaths = []string{"client-udp", "server-udp", "client-tcp", "server-tcp",
+	"client-auto-udp", "client-auto-461", "client-auto-tcpanswer", "client-multicast"}
 
 // e2eAll: the end-to-end part of the domain run.
 func e2eAll(c *corr.Ctx) {
@@ -808,23 +936,33 @@ func e2eAll(c *corr.Ctx) {
 	run := func(h *RecvHistory, name string) {
 		c.Guard("C14", "recv-e2e", h, 60*time.Second, func() { e2eRun(c, env, h, name) })
 	}
+	paths := e2ePaths
+	if e2eMulticastIP() == nil { // no multicast-capable interface in this sandbox
+		paths = nil
+		for _, p := range e2ePaths {
+			if p != "client-multicast" {
+				paths = append(paths, p)
+			}
+		}
+		c.Dist("e2e-multicast-skipped")
+	}
 	// corpus: a packet parked behind a missing one, then a different (shorter / longer) datagram, then
 	// the missing packet: the parked packet is delivered after its read buffer could have been reused
-	for _, path := range e2ePaths {
-		h := &RecvHistory{Unreliable: strings.HasSuffix(path, "-udp"), Size: e2eBufSize, E2E: path,
+	for _, path := range paths {
+		h := &RecvHistory{Unreliable: e2eUnreliable(path), Size: e2eBufSize, E2E: path,
 			Seqs: []uint16{65533, 65535, 0, 1, 65534, 2, 4, 5, 3, 6}, IDs: []int{0, 2, 3, 4, 1, 5, 7, 8, 6, 9}, Orig: []int{0, 2, 3, 4, 1, 5, 7, 8, 6, 9}}
 		recvRun(c, cloneForUnit(h), "e2e-corpus-unit-"+path)
 		run(h, "e2e-corpus-"+path)
 	}
-	n := c.N(70, 600)
+	n := c.N(40, 300)
 	for i := 0; i < n; i++ {
-		for _, path := range e2ePaths {
+		for _, path := range paths {
 			h := genRecvHistoryWith(c, e2eBufSize)
 			if len(h.Seqs) == 0 {
 				continue
 			}
 			h.E2E = path
-			h.Unreliable = strings.HasSuffix(path, "-udp")
+			h.Unreliable = e2eUnreliable(path)
 			h.ReportAt = nil
 			// the receiver-level oracle and the model correspondence on exactly this history
 			recvRun(c, cloneForUnit(h), fmt.Sprintf("e2e-unit-%s-%d", path, i))
